@@ -89,6 +89,9 @@ func runStartFault(w *tr.Writer, seed uint64, idx int) {
 		eff := proto == "udp" || (reuseport && proto != "unix" && addr2 == "")
 		w.Op(tr.L("start", tr.B(eff), tr.I(loops), tr.I(nlis), name, tr.I(index)))
 	}
+	if client {
+		w.Op(tr.L("cstart", tr.I(loops), name, tr.I(index)))
+	}
 	h := &bootOnly{booted: make(chan struct{})}
 	done := make(chan error, 1)
 	started := false
@@ -157,8 +160,8 @@ func runStartFault(w *tr.Writer, seed uint64, idx int) {
 		w.Fail("fd-not-owned", "goroutine-left-polling", fmt.Sprintf("%d goroutine(s) of the framework are still inside Poller.Polling after Run / Client.Stop returned (start in which %s #%d %s)", left, name, index, kind))
 	}
 	rec.mu.Lock()
-	if !client {
-		// what the descriptor ledger saw, in the model's terms
+	{
+		// what the descriptor ledger saw, in the model's terms (server and client starts alike)
 		ret := "failed"
 		if started {
 			ret = "started"
